@@ -361,8 +361,12 @@ func (c *Ctx) add(rule, construct, status, pos, detail string) {
 	c.obls = append(c.obls, Obligation{Rule: rule, Construct: construct, Status: status, Pos: pos, Detail: detail})
 }
 
-func (c *Ctx) ok(rule, construct, pos, detail string)   { c.add(rule, construct, Discharged, pos, detail) }
-func (c *Ctx) viol(rule, construct, pos, detail string) { c.add(rule, construct, Violated, pos, detail) }
+func (c *Ctx) ok(rule, construct, pos, detail string) {
+	c.add(rule, construct, Discharged, pos, detail)
+}
+func (c *Ctx) viol(rule, construct, pos, detail string) {
+	c.add(rule, construct, Violated, pos, detail)
+}
 func (c *Ctx) undec(rule, construct, pos, detail string) {
 	c.add(rule, construct, Undecided, pos, detail)
 }
